@@ -216,8 +216,8 @@ def tok_cases(ctx):
             cuts = range(len(x)) if len(x) <= 4 else rnd.sample(range(len(x)), 2)
             sw = o["sw"] if len(o["sw"]) <= 2 else rnd.sample(o["sw"], 2)
         else:
-            cuts = range(len(x)) if len(x) <= 30 else rnd.sample(range(len(x)), 14)
-            sw = o["sw"] if len(o["sw"]) <= 8 else rnd.sample(o["sw"], 8)
+            cuts = range(len(x)) if len(x) <= 16 else rnd.sample(range(len(x)), 10)
+            sw = o["sw"] if len(o["sw"]) <= 6 else rnd.sample(o["sw"], 6)
         for k in cuts:
             mk("cut", k, 0, x[:k])
         for p in sw:
@@ -229,7 +229,7 @@ def tok_cases(ctx):
         raise Infra("TokenEventsGen produced only %d texts" % texts)
     ctx.cov["token_model_texts"] = texts
     xb = ctx.build("xwalk")
-    p = ctx.run([xb, "tok-gen", "-n", "120" if ctx.quick else "5000"])
+    p = ctx.run([xb, "tok-gen", "-n", "120" if ctx.quick else "3000"])
     for line in p.stdout.decode().splitlines():
         if line.strip():
             out.append(json.loads(line))
